@@ -262,8 +262,8 @@ AllEv == {"push", "pop", "set"}
    of range -1, 100; 3 is never defined) with either channel kind and two
    titles, and label values 0..2 with two labels (+ empty title / label); in
    the thorough configuration thread 1 adds one event. *)
-DefsD(th) == TypeCalls({0, 99, -1, 100}, {0, 1}, {"A", "B"})
-             \cup LabelCalls({0, 99, 3, 100}, {0, 1, 2}, {"x", "y"})
+DefsD(th) == TypeCalls({0, 99, 35, -1, 100}, {0, 1}, {"A", "B"})       \* (99 = 35 + 64: two valid type numbers
+             \cup LabelCalls({0, 99, 35, 3, 100}, {0, 1, 2}, {"x", "y"})     \*  that agree in their low six bits)
              \cup TypeCalls({0}, {1}, {""}) \cup LabelCalls({0}, {1}, {""})
 EvD(th)   == IF th = 1 THEN {C("push", 0, 1, ""), C("set", 99, 2, ""), C("push", 0, 0, "")} ELSE {}
 MaxDefsDq(th) == 2
